@@ -19,8 +19,14 @@ func DrawSpec(t *rapid.T, label string) *Spec {
 	case k == 6:
 		v := gen.Value(t, gen.DocOpts{Depth: 3, Width: 3, Exp: true, StrLen: 4}, label+"V")
 		text := string(gen.Print(v, gen.RapidBlanks(t, label+"WS")))
-		if rapid.IntRange(0, 2).Draw(t, label+"Break") == 0 && len(text) > 1 {
-			text = text[:rapid.IntRange(0, len(text)-1).Draw(t, label+"Cut")] + rapid.SampledFrom([]string{"", "x", "}", ","}).Draw(t, label+"Tail")
+		switch rapid.IntRange(0, 3).Draw(t, label+"Break") {
+		case 0:
+			if len(text) > 1 {
+				text = text[:rapid.IntRange(0, len(text)-1).Draw(t, label+"Cut")] + rapid.SampledFrom([]string{"", "x", "}", ","}).Draw(t, label+"Tail")
+			}
+		case 1:
+			// a complete value followed by foreign text (what AllowTrailingNonSpaceCharacters is for)
+			text += rapid.SampledFrom([]string{" ", "\n", "\r\n\r\n", ""}).Draw(t, label+"Sep") + rapid.SampledFrom([]string{"GET /x", "Body", "x", "}", "TYPE @a"}).Draw(t, label+"Foreign")
 		}
 		return &Spec{Kind: "json", Text: text, Allow: rapid.Bool().Draw(t, label+"Allow")}
 	case k == 7 || k == 8:
